@@ -21,31 +21,51 @@ def unit_map(rng):
     return m
 
 
+_UMAP = {}
+_ALLSEEDS = []
+
+
+def drive(arg):
+    qual, seed, per_seed, thorough = arg
+    import random
+    cls = corpus.resolve(qual)
+    rng = random.Random('%s:%s' % (seed, qual))
+    lib = corpus.by_class()
+    unit, frs = _UMAP.get(cls, ('', []))
+    seeds = list(dict.fromkeys(list(lib.get(cls, [])) + list(frs)))
+    if not thorough and len(seeds) > 12:
+        seeds = seeds[:6] + rng.sample(seeds[6:], 6)
+    events = []
+    for seed_bytes in seeds:
+        if len(seed_bytes) > 3000 and not thorough:
+            continue
+        other = rng.choice(frs) if frs else rng.choice(_ALLSEEDS)
+        suffixes = (b'\x00', bytes(rng.randrange(256) for _ in range(5)), seed_bytes, other) if unit else ()
+        inputs = [seed_bytes] + mutants(seed_bytes, rng, per_seed, others=[other])
+        for data in inputs:
+            ev, _ = api.observe(cls, data, unit=unit, positive=bool(unit), suffixes=suffixes)
+            ev['dg'] = digest([ev['cls'], data.hex()])
+            ev['hex'] = data.hex() if len(data) <= 400 else data[:400].hex() + '...'
+            events.append(ev)
+    return events
+
+
 def run_api(rep, thorough):
+    from ..par import pmap
     rng = rep.rng
     lib = corpus.by_class()
-    umap = unit_map(rng)
-    per_seed = 60 if thorough else 14
+    _UMAP.clear()
+    _UMAP.update(unit_map(rng))
+    _ALLSEEDS[:] = [d for ds in lib.values() for d in ds]
+    per_seed = 60 if thorough else 10
+    classes = sorted(set(lib) | set(_UMAP), key=lambda c: c.__module__ + c.__qualname__)
+    classes = [c for c in classes if isinstance(c, type) and hasattr(c, 'parse_immutable')]
+    args = [(c.__module__ + '.' + c.__qualname__, rep.seed, per_seed, thorough) for c in classes]
     events = []
-    classes = sorted(set(lib) | set(umap), key=lambda c: c.__module__ + c.__qualname__)
-    allseeds = [d for ds in lib.values() for d in ds]
-    for cls in classes:
-        if not (isinstance(cls, type) and hasattr(cls, 'parse_immutable')):
-            continue
-        unit, frs = umap.get(cls, ('', []))
-        seeds = list(dict.fromkeys(list(lib.get(cls, [])) + list(frs)))
-        if not thorough and len(seeds) > 12:
-            seeds = seeds[:6] + rng.sample(seeds[6:], 6)
-        for seed in seeds:
-            if len(seed) > 3000 and not thorough:
-                continue
-            other = rng.choice(frs) if frs else rng.choice(allseeds)
-            suffixes = (b'\x00', bytes(rng.randrange(256) for _ in range(5)), seed, other) if unit else ()
-            inputs = [seed] + mutants(seed, rng, per_seed, others=[other])
-            for data in inputs:
-                ev, _ = api.observe(cls, data, unit=unit, positive=bool(unit), suffixes=suffixes)
-                events.append(ev)
-                rep.case(digest([ev['cls'], list(data)]), nontrivial=True)
+    for evs in pmap(drive, args):
+        events += evs
+    for e in events:
+        rep.case(e['dg'])
     rep.extra['classes_driven'] = len(classes)
     rep.extra['accepted'] = sum(1 for e in events if e['imm']['out'] == 'ok')
     rep.extra['framing_unit_classes'] = sorted({e['cls'] for e in events if e['unit']})
@@ -60,7 +80,7 @@ def run_api(rep, thorough):
         rep.violation('%s|%s|%s' % (ev['cls'], clause, ev['unit'] or 'parse'),
                       '%s: %s (buffer of %d bytes, immutable %s n=%s, exact %s)' % (
                           ev['cls'], clause, ev['len'], ev['imm']['out'], ev['imm']['n'], ev['exact']['out']),
-                      {'event': ev, 'buffer_hex': None})
+                      {'event': ev})
 
 
 def run(rep):
